@@ -13,6 +13,9 @@ import (
 // pool graph of the world: pool id -> (base, quote)
 var poolDenoms = [][2]string{{"urise", "uusdc"}, {"uusdc", "uatom"}}
 
+// every pool of the world, by id (see setup)
+var allPoolDenoms = [][2]string{{"urise", "uusdc"}, {"uusdc", "uatom"}, {"uatom", "uosmo"}, {"urise", "uatom"}, {"urise", "uosmo"}, {"uusdc", "uosmo"}}
+
 func poolRoute(in, out string, id uint64) swaptypes.Route {
 	return swaptypes.Route{DenomIn: in, DenomOut: out, Strategy: &swaptypes.Route_Pool{Pool: &swaptypes.RoutePool{PoolId: id}}}
 }
